@@ -118,7 +118,7 @@ PROPS = {
     "C17": {"mc": [{"module": "MC_Toggles", "quick": "MC_Toggles.cfg", "thorough": "MC_Toggles.cfg", "workers": 2, "emits": "MC_Toggles"}],
             "suites": [{"suite": "toggles", "trace": "Trace_Toggles", "cfg": "Trace_Toggles.cfg", "sched_from": "MC_Toggles",
                         "extra": {"mode": "sched"}, "quick": {"runs": 0}, "thorough": {"runs": 0}, "procs": 4},
-                       POOL_SUITE, VAULT_SUITE]},
+                       POOL_SUITE, VAULT_SUITE, TRIO_SUITE]},
     "C18": {"mc": [{"module": "MC_Config", "quick": "MC_Config.cfg", "thorough": "MC_Config.cfg", "workers": 4, "emits": "MC_Config"}],
             "suites": [{"suite": "config", "trace": "Trace_Config", "cfg": "Trace_Config.cfg", "sched_from": "MC_Config",
                         "extra": {"mode": "sched"}, "quick": {"runs": 0}, "thorough": {"runs": 0}, "procs": 6},
